@@ -97,7 +97,8 @@ Reap(k) == /\ Expired(cfg, kv[k], now)
 \* re-seeded from the recovered versions (seen stays an upper bound)
 Reopen == /\ cfg.pers
           /\ kv' = [k \in Keys |-> IF Expired(cfg, kv[k], now) THEN NoRec ELSE kv[k]]
-          /\ floor' = [k \in Keys |-> IF Live(cfg, kv[k], now) THEN kv[k].ts ELSE TZero]
+          \* recovery feeds the clock from every generation it reads, also from a newest one it then drops as expired
+          /\ floor' = [k \in Keys |-> IF kv[k].p THEN kv[k].ts ELSE TZero]
           /\ UNCHANGED <<now, seen, cfg>>
 
 Init == /\ kv = [k \in Keys |-> NoRec] /\ now = 1 /\ floor = [k \in Keys |-> 0] /\ seen = 0
